@@ -9,12 +9,14 @@ silently ignored" is part of that set: a branch that must fire for some element 
 
 Case line (also the Lean driver's input):
   (prog (dom d..) (root (h e..) (c k..) KID..))     KID = (ref|alt|next (h e..) (c k..) KID..)
+At the top level of `root`, `(reenter)` (close the `with rule:` block, open `with rule:` again on the same rule) and
+`(here)` (the base rule's Add statements stand here instead of first) may stand between the kids: multi-step authoring.
 `h` = the domain elements for which the block's condition holds (realised as `in_(x.a, [...])`), `c` = classes
 concluded in the block, kids in textual order."""
 from __future__ import annotations
 
 import itertools
-from dataclasses import dataclass
+from dataclasses import dataclass, field
 
 from core import Case
 
@@ -27,11 +29,15 @@ THEOREMS = [
     "KrroodVerif.Rdr.C08_build_partial",
     "KrroodVerif.Rdr.C08_full_partial",
     "KrroodVerif.Rdr.C08_fixed_end_to_end",
+    "KrroodVerif.Rdr.C08_authoring",
+    "KrroodVerif.Rdr.C08_build_partial_authored",
+    "KrroodVerif.Rdr.C08_full_partial_authored",
+    "KrroodVerif.Rdr.C08_today_end_to_end_authored",
     "KrroodVerif.Rdr.C08_cex_third_alternative",
     "KrroodVerif.Rdr.C08_cex_nested_refinement",
     "KrroodVerif.Rdr.C08_cex_next_same_binding",
 ]
-MODEL_FUNCTION = ("Rdr.model = Rdr.build (BState.step/doRefinement/doAltOrNext) + Rdr.evalT / Rdr.evalK "
+MODEL_FUNCTION = ("Rdr.modelA = Rdr.buildA (authoring schedule: several `with rule:` blocks) / Rdr.model = Rdr.build (BState.step/doRefinement/doAltOrNext) + Rdr.evalT / Rdr.evalK "
                   "(Model/Rule.lean); specification Rdr.fire / Rdr.spec")
 TRUSTED = [
     "Lean 4.33 kernel; axioms of each theorem listed under coverage.theorems",
@@ -45,6 +51,8 @@ ASSUMPTIONS = [
     "abstraction: one enumerated variable x over a domain of pairwise distinct objects; each branch condition is a "
     "predicate on x (in_(x.a, [...])); each conclusion is Add(views, inference(K_c)(src=x)), one per block",
     "the query is evaluated once per freshly built rule program (re-evaluation is C03's subject)",
+    "multi-step authoring is generated at the rule's own level only (several `with rule:` blocks, base Add anywhere "
+    "between the branches); branch blocks are written once, conclusions first",
     "programs in which an alternative is written after a next_rule inside one chain are not generated: the property "
     "text does not say whether such an alternative is an else-if of the rule or of everything written so far",
     "CPython set iteration order decides which of two conclusions leaked into one _conclusion_ set binds last "
@@ -52,8 +60,11 @@ ASSUMPTIONS = [
 ]
 RULE = ("corpus; exhaustive: every unambiguous program skeleton with <=3 branches (kinds x nestings x textual "
         "orders, with and without conclusions on the base) over the full truth-table domain (one element per subset "
-        "of the conditions); random: programs with nesting <=3, <=4 siblings, <=9 branches, domains of 1-5 "
-        "elements and random condition sets, half of them drawn from the class today's surgery builds correctly; "
+        "of the conditions), each also written in two `with rule:` blocks with the base conclusion in the second "
+        "block; random: programs with nesting <=3, <=4 siblings, <=9 branches, domains of 1-5 "
+        "elements and random condition sets, half of them drawn from the class today's surgery builds correctly, "
+        "two in five authored in several `with rule:` blocks on the same rule (1-3 re-entries at random points, "
+        "base conclusion at a random point); "
         "non-trivial = at least one branch and a specification result that is neither empty nor 'every class for "
         "every element'; distinct by case text")
 
@@ -73,6 +84,10 @@ class Block:
     holds: list
     concl: list
     kids: list
+    # root only — multi-step authoring: (position, marker) pairs, marker "reenter" (the `with rule:` block is closed
+    # and `with rule:` is opened again) or "here" (the base rule's Add statements stand here; default: first);
+    # a marker at position i stands before kid i (i == len(kids): after the last kid)
+    marks: list = field(default_factory=list)
 
     def size(self) -> int:
         return 1 + sum(k.size() for k in self.kids)
@@ -82,12 +97,39 @@ class Block:
 
     def show(self) -> str:
         s = f"({self.kind} (h" + "".join(f" {e}" for e in self.holds) + ") (c" + "".join(f" {c}" for c in self.concl) + ")"
-        for k in self.kids:
-            s += " " + k.show()
+        for tok in self.tokens():
+            s += " " + (tok.show() if isinstance(tok, Block) else f"({tok})")
         return s + ")"
 
+    def tokens(self):
+        """kids interleaved with the authoring markers, in the order written"""
+        out = []
+        for i in range(len(self.kids) + 1):
+            out.extend(m for pos, m in self.marks if pos == i)
+            if i < len(self.kids):
+                out.append(self.kids[i])
+        return out
+
+    def sessions(self):
+        """the top-level tokens split at the `reenter` markers: one list per `with rule:` block"""
+        out = [[]]
+        for tok in self.tokens():
+            if tok == "reenter":
+                out.append([])
+            else:
+                out[-1].append(tok)
+        if not any(t == "here" for sess in out for t in sess):
+            out[0].insert(0, "here")
+        return out
+
     def copy(self) -> "Block":
-        return Block(self.kind, list(self.holds), list(self.concl), [k.copy() for k in self.kids])
+        return Block(self.kind, list(self.holds), list(self.concl), [k.copy() for k in self.kids], list(self.marks))
+
+    def drop_kid(self, j, replacement=()):
+        """remove kid j (put `replacement` in its place), keeping the markers where they were written"""
+        shift = len(replacement) - 1
+        self.kids[j:j + 1] = list(replacement)
+        self.marks = [(pos + shift if pos > j else pos, m) for pos, m in self.marks]
 
     def walk(self):
         yield self
@@ -121,7 +163,14 @@ def parse_prog(line: str):
 
     def blk(b):
         assert b[1][0] == "h" and b[2][0] == "c"
-        return Block(b[0], [int(x) for x in b[1][1:]], [int(x) for x in b[2][1:]], [blk(k) for k in b[3:]])
+        out = Block(b[0], [int(x) for x in b[1][1:]], [int(x) for x in b[2][1:]], [])
+        for item in b[3:]:
+            if item in (["reenter"], ["here"]):
+                assert b[0] == "root"
+                out.marks.append((len(out.kids), item[0]))
+            else:
+                out.kids.append(blk(item))
+        return out
 
     return dom, blk(s[2])
 
@@ -308,7 +357,25 @@ def _exhaustive(tier: str):
                 if not unambiguous(root):
                     continue
                 out.append(Case(show_prog(dom, root), ("exhaustive", f"branches{nb}"), "exhaustive"))
+                if base_concl and root.kids:
+                    # the same rule written in two steps: a first `with rule:` block with the first branch, a
+                    # second one with the rest; the base conclusion stands in the second block, or at its end
+                    for here_pos in (1, len(root.kids)):
+                        r2 = root.copy()
+                        r2.marks = [(1, "reenter"), (here_pos, "here")]
+                        out.append(Case(show_prog(dom, r2), ("exhaustive", f"branches{nb}", "multi-block"),
+                                        "exhaustive"))
     return out
+
+
+def _add_schedule(rng, root: Block):
+    """multi-step authoring: close and re-open `with rule:` 1-3 times, base conclusion anywhere"""
+    n = len(root.kids)
+    marks = [(rng.randrange(0, n + 1), "reenter") for _ in range(rng.choice([1, 1, 2, 3]))]
+    if rng.random() < 0.8:
+        marks.append((rng.randrange(0, n + 1), "here"))
+    rng.shuffle(marks)
+    root.marks = sorted(marks, key=lambda pm: pm[0])  # stable: the shuffled order decides ties
 
 
 def generate(rng, tier, n):
@@ -317,9 +384,14 @@ def generate(rng, tier, n):
         clean = i % 2 == 0
         dom, root = _gen_prog(rng, clean)
         assert unambiguous(root)
+        multi = i % 5 < 2
+        if multi:
+            _add_schedule(rng, root)
         kinds = sorted({b.kind for b in root.walk()} - {"root"})
         tags = ("random", "clean-class" if clean else "general", f"size{min(root.size() - 1, 9)}",
                 f"depth{root.depth() - 1}", "kinds:" + "+".join(kinds), f"dom{len(dom)}")
+        if multi:
+            tags += ("multi-block", f"blocks{len(root.sessions())}")
         cases.append(Case(show_prog(dom, root), tags, "random"))
     return cases
 
@@ -353,14 +425,16 @@ def shrink(case: Case):
     for path in list(paths(root)):
         if path:
             r = root.copy()
-            par = get(r, path[:-1])
-            del par.kids[path[-1]]
+            get(r, path[:-1]).drop_kid(path[-1])
             yield from emit(dom, r)
             r = root.copy()
             par = get(r, path[:-1])
-            k = par.kids[path[-1]]
-            par.kids[path[-1]:path[-1] + 1] = k.kids
+            par.drop_kid(path[-1], par.kids[path[-1]].kids)
             yield from emit(dom, r)
+    for i in range(len(root.marks)):
+        r = root.copy()
+        del r.marks[i]
+        yield from emit(dom, r)
     if len(dom) > 1:
         for d in dom:
             r = root.copy()
@@ -455,8 +529,15 @@ def _one(case: Case) -> str:
                 with fn[k.kind](cond(k)):
                     body(k)
 
-        with query:
-            body(root)
+        for session in root.sessions():  # one `with rule:` block each
+            with query:
+                for tok in session:
+                    if tok == "here":
+                        for c in root.concl:
+                            Add(views, inference(kls[c])(src=x))
+                    else:
+                        with fn[tok.kind](cond(tok)):
+                            body(tok)
         rows = set()
         for r in query.evaluate():
             _STATS["instances"] += 1
